@@ -46,12 +46,12 @@ func c04Ops(h *HistGen) []J {
 		opLine("createCollectionByQuery", J{"coll": hx("new2"), "q": qCrit}),
 		opLine("createCollectionByQuery", J{"coll": hx("g"), "q": qCrit}),
 		opLine("import", J{"coll": hx("imp"), "raw": fmt.Sprintf("[{\"_id\":%q,\"a\":1},{\"_id\":%q,\"a\":\"s\"}]", fixedId(60), fixedId(61))}),
-		opLine("import", J{"coll": hx("f"), "raw": fmt.Sprintf("[{\"_id\":%q,\"a\":1}]", fixedId(62))}), // the collection exists (with documents and indexes)
-		opLine("import", J{"coll": hx("g"), "raw": fmt.Sprintf("[{\"_id\":%q,\"a\":1}]", fixedId(63))}), // the collection exists (empty)
+		opLine("import", J{"coll": hx("f"), "raw": fmt.Sprintf("[{\"_id\":%q,\"a\":1}]", fixedId(62))}),                                      // the collection exists (with documents and indexes)
+		opLine("import", J{"coll": hx("g"), "raw": fmt.Sprintf("[{\"_id\":%q,\"a\":1}]", fixedId(63))}),                                      // the collection exists (empty)
 		opLine("import", J{"coll": hx("imp2"), "raw": fmt.Sprintf("[{\"_id\":%q,\"a\":1},{\"_id\":%q,\"a\":2}]", fixedId(64), fixedId(64))}), // duplicate inside the file
-		opLine("import", J{"coll": hx("imp3"), "raw": fmt.Sprintf("[{\"_id\":%q,\"a\":1},{\"_id\":\"nope\"}]", fixedId(65))}),             // malformed id at position 2
-		opLine("import", J{"coll": hx("imp4"), "raw": "[{\"a\":"}),                                                                        // ill-formed file
-		opLine("import", J{"coll": hx("imp5")}),                                                                                            // unreadable file
+		opLine("import", J{"coll": hx("imp3"), "raw": fmt.Sprintf("[{\"_id\":%q,\"a\":1},{\"_id\":\"nope\"}]", fixedId(65))}),                // malformed id at position 2
+		opLine("import", J{"coll": hx("imp4"), "raw": "[{\"a\":"}),                                                                           // ill-formed file
+		opLine("import", J{"coll": hx("imp5")}), // unreadable file
 		opLine("export", J{"coll": hx("f"), "file": "e1"}),
 		opLine("export", J{"coll": hx("nope"), "file": "e2"}),
 		opLine("findAll", J{"q": qCrit}),
@@ -172,9 +172,10 @@ func streamC04(c *Ctx) {
 			recordHistory(c, lines, &o, be)
 			c.Count("faulted-history:" + be)
 			if o.Index >= 0 {
-				reportHistoryProblem(c, dr, im, lines, &o, be, HistOpts{}, "faulted-history")
-				im.Destroy()
-				return
+				if reportHistoryProblem(c, dr, im, lines, &o, be, HistOpts{}, "faulted-history") {
+					im.Destroy()
+					return
+				}
 			}
 		}
 		im.Destroy()
